@@ -32,11 +32,36 @@ func (c *Ctx) inDecodeClosure(f *ssa.Function) bool {
 	for f.Parent() != nil {
 		f = f.Parent()
 	}
-	switch f.Name() {
-	case "ReadPacket", "Unpack", "decodeFlags", "NewPacketWithHeader", "HeaderLength":
-		return true
+	if c.decodeSet == nil {
+		c.decodeSet, _ = c.decodeClosure()
 	}
-	return false
+	return c.decodeSet[f]
+}
+
+// gatewayHandlerType: the per-session handler struct of package gateway (the struct holding the
+// session state cell), whatever its name.
+func (c *Ctx) gatewayHandlerType() string {
+	p := c.ByPath[pkGateway]
+	if p == nil {
+		return ""
+	}
+	scope := p.Types.Scope()
+	for _, n := range scope.Names() {
+		tn, ok := scope.Lookup(n).(*types.TypeName)
+		if !ok {
+			continue
+		}
+		st, ok := tn.Type().Underlying().(*types.Struct)
+		if !ok {
+			continue
+		}
+		for k := 0; k < st.NumFields(); k++ {
+			if typeIs(derefType(st.Field(k).Type()), pkUtil, "ClientState") {
+				return tn.Name()
+			}
+		}
+	}
+	return ""
 }
 
 type proceedSite struct {
@@ -503,7 +528,11 @@ func checkC25(c *Ctx, r *Report) {
 		}
 	}
 	// R5: shared plain maps
-	for _, tn := range [][2]string{{pkClient, "Client"}, {pkGateway, "handler1"}} {
+	sharedOwners := [][2]string{{pkClient, "Client"}}
+	if hn := c.gatewayHandlerType(); hn != "" {
+		sharedOwners = append(sharedOwners, [2]string{pkGateway, hn})
+	}
+	for _, tn := range sharedOwners {
 		for _, fld := range structFieldNames(c, tn[0], tn[1]) {
 			if _, isMap := fld.Type().Underlying().(*types.Map); !isMap {
 				continue
